@@ -41,6 +41,16 @@ def gen_scripts(r, n):
         # silent peer with a timeout limit
         (base, [('E', 'f'), ('CO',), S(0), S(1), S(2), ('T', 10 * MS), ('T', 10 * MS), S(3), ('T', 20 * MS), ('CO',), S(4), ('F', 2, 'g')]),
     ]
+    # commands arriving DURING a wait state at intervals shorter than the delay: the wait still ends at wait_start + delay
+    for first in ([('CE',)], [('CO',), ('Z',)], [('CO',), ('G',)], [('CE',), ('T', 20 * MS), ('CE',)]):
+        for cmds in ('SSSSSS', 'EEEEEE', 'LLLLLL', 'SELSEL', 'LSSELS'):
+            for gap in (1 * MS, 5 * MS, 7 * MS + 1):
+                sc = [('E', 'f')] + list(first)
+                for i, c in enumerate(cmds):
+                    sc.append(('T', gap))
+                    sc.append(('S', i, 'r', 10 * MS, 'fcx'[i % 3]) if c == 'S' else ('E', 'fx'[i % 2]) if c == 'E' else ('L', 'max', 'f'))
+                sc += [('T', 40 * MS), ('CO',), ('S', 9, 'r', 10 * MS, 'f'), ('F', 0, 'g')]
+                cases.append((dict(base, mt=0), sc))
     w = {'S': 4, 'T': 5, 'E': 4, 'D': 3, 'L': 0.3, 'H': 0.5, 'A': 0.15, 'X': 0.7, 'W': 0.3, 'V': 0.1,
          'CO': 5, 'CE': 4, 'F': 2, 'P': 0.3, 'Q': 1, 'G': 1, 'Z': 2, 'R': 1}
     while len(cases) < n:
